@@ -218,6 +218,30 @@ def argext(ctx, shape, func, axis, skipna=False, nan=False, lkinds=None, transpo
     return ctx.done(ctx.AND(*oks), ctx.observe(res))
 
 
+def width(ctx, dt, func, axis=None):
+    """decided by its real-stack replay (dtype widths are not modelled): cumulative sums / products and differences of narrow
+    integer data equal NumPy's on .values (NumPy accumulates narrow integers in the platform integer: no wrap-around)"""
+    np, da = ctx.np, ctx.da
+    rows = [[100, 100, 100], [3, 50, 7]]
+    vals = np.array(rows, dtype=getattr(np, dt))
+    a = da.DimArray(vals, axes=[('x', np.array([10, 20])), ('y', np.array([1, 2, 3]))])
+    kw = {} if axis is None else {'axis': axis}
+    r = ctx.call(lambda: getattr(a, func)(**kw))
+    if r[0] != 'ok':
+        return ctx.done(False, r[1])
+    res = r[1]
+    exp = []
+    for row in rows:
+        acc = []
+        t = 0 if func == 'cumsum' else 1
+        for c in row:
+            t = t + c if func == 'cumsum' else t * c
+            acc.append(t)
+        exp.append(acc)
+    ok = isinstance(res, da.DimArray) and tuple(res.dims) == ('x', 'y') and res.values.tolist() == exp
+    return ctx.done(ok, ctx.observe(res))
+
+
 def templates():
     ts = []
 
@@ -267,4 +291,8 @@ def templates():
                 tier='quick') if False else add('%s-transposed-%s-none' % (func, 'x'.join(map(str, shape))), 'argext', 'quick' if len(shape) == 2 else 'thorough', 4 if len(shape) == 2 else 30, shape=shape, func=func, axis=None, transposed=True)
             add('%s-transposed-%s-axis0' % (func, 'x'.join(map(str, shape))), 'argext', cost=4, shape=shape, func=func, axis=0, transposed=True)
         add('%s-3d-none' % func, 'argext', 'thorough', cost=30, shape=[2, 2, 2], func=func, axis=None)
+    for dt in ('int8', 'int16', 'int32', 'uint8'):
+        for func in ('cumsum', 'cumprod'):
+            for axis in (None, 'y', 1):
+                add('width-%s-%s-%s' % (dt, func, axis), 'width', cost=0.1, dt=dt, func=func, axis=axis)
     return ts
